@@ -479,7 +479,7 @@ pub fn run_c03(report: &Report, tier: &Tier) {
          loss, duplication and delay, horizon 3 x largest TTL; lazy, eager and oversleep stepping; plus the two-interface scenarios of C18 part P (an interface lost or switched off) judged for the interface tags of the addresses shown; distinct by (shape, event kinds)",
     );
     report.assume("records keep one spelling and one cache-flush setting per identity (PTR shared, SRV/TXT/address unique), so 'the same record' is unambiguous");
-    for r in ["S1", "S2", "S3", "S4", "S2-interface-loss", "S2-flush-in-foreign-packet"] {
+    for r in ["S1", "S2", "S3", "S4", "S2-interface-loss", "S2-flush-in-foreign-packet", "S1-srv-in-foreign-packet"] {
         report.floor(r, 100);
     }
     let seed = report.seed;
@@ -489,12 +489,12 @@ pub fn run_c03(report: &Report, tier: &Tier) {
         run_one(util::mix(seed, 0xC03_0000 + i), "C03", &opts, l);
     });
     // addresses and the interfaces they were received on, when one of two interfaces goes
-    let np: u64 = if tier.thorough { 40_000 } else { 800 };
+    let np: u64 = if tier.thorough { 60_000 } else { 1_200 };
     run_parallel(report, np, threads(), tier.budget_s * 0.1, |i, l| {
-        if i % 2 == 0 {
-            interface_loss_case(util::mix(seed, 0xC03_9000 + i), "C03", l);
-        } else {
-            foreign_flush_case(util::mix(seed, 0xC03_A000 + i), l);
+        match i % 3 {
+            0 => interface_loss_case(util::mix(seed, 0xC03_9000 + i), "C03", l),
+            1 => foreign_flush_case(util::mix(seed, 0xC03_A000 + i), l),
+            _ => foreign_srv_update_case(util::mix(seed, 0xC03_B000 + i), l),
         }
     });
 }
@@ -578,6 +578,57 @@ pub fn foreign_flush_case(seed: u64, l: &mut Local) {
     }
     l.act("S2-flush-in-foreign-packet");
     let made = Made { world: w, horizon, desc: format!("{stepping:?} dual={dual} address update of {host} delivered inside the announcement of a service of an unbrowsed type, TXT update afterwards events: @0:announce0 @1:foreign-flush0 @2:update0"), svcs: vec![s2], policy: browser::Policy::Never, browse_chan, host_chans: Vec::new(), verifies: Vec::new() };
+    monitor_c03(&made, l);
+}
+
+/// An instance that carries no TXT record (PTR, SRV and address only) moves to another port; the new SRV record,
+/// cache-flush bit set, arrives inside the announcement of a service of an unbrowsed type (an aggregated response
+/// of a box that runs both). More than a second later another address of the host shows up and the instance is
+/// reported again: with the port of the SRV record that is live then.
+pub fn foreign_srv_update_case(seed: u64, l: &mut Local) {
+    use crate::scen::Svc;
+    let mut rng = crate::util::Rng::new(seed);
+    let mut w = World::new(seed);
+    let stepping = if rng.chance(1, 3) { Stepping::Eager(10) } else { Stepping::Lazy };
+    w.set_stepping(stepping);
+    let h = w.add_host(scen::single_v4());
+    w.set_ip_check_interval(h, 3600);
+    let browse_chan = w.browse(h, browser::TY);
+    w.run_for(rng.below(900));
+    let host = if rng.chance(1, 2) { "Bare-Box.local" } else { "bare-box.local" };
+    let mut s = Svc::new(browser::TY, if rng.chance(1, 2) { "Bare Upstairs" } else { "bare" }, host, [10, 0, 0, 54]);
+    for t in [&mut s.ttl_ptr, &mut s.ttl_srv, &mut s.ttl_addr] {
+        *t = *rng.pick(&[120u32, 4500]);
+    }
+    let without_txt = rng.chance(2, 3);
+    let mut m = wire::Message::response();
+    m.answers = s.records().into_iter().filter(|r| !(without_txt && r.rtype == wire::T_TXT)).collect();
+    w.inject_msg(h, 2, scen::peer4(54), &m);
+    w.run_for(1500 + rng.below(2500));
+    // the move, told inside the other service's announcement
+    let mut s2 = s.clone();
+    s2.port = s.port + 100;
+    let f = Svc::new("_elsewhere._tcp.local.", "thing", host, [10, 0, 0, 54]);
+    let mut m = f.announce();
+    let at = rng.usize(m.answers.len()) + 1;
+    m.answers.insert(at.min(m.answers.len()), s2.srv());
+    w.inject_msg(h, 2, scen::peer4(54), &m);
+    w.run_for(1200 + rng.below(1800));
+    // another address of the host
+    s2.v4.push([10, 0, 0, 55]);
+    let mut m = wire::Message::response();
+    m.answers = s2.addrs();
+    w.inject_msg(h, 2, scen::peer4(54), &m);
+    let horizon = w.now() + 4000;
+    w.run_until(horizon);
+    l.evaluations += 1;
+    l.distinct.insert(util::fnv_str(&format!("foreign-srv|{without_txt}|{stepping:?}|{host}|{}", s.ttl_srv)));
+    if w.trace.deaths().any(|d| matches!(d.ev, Ev::Death { panicked: true, .. })) {
+        l.inconclusive.push(format!("daemon died in a C03 scenario (seed {seed})"));
+        return;
+    }
+    l.act("S1-srv-in-foreign-packet");
+    let made = Made { world: w, horizon, desc: format!("{stepping:?} txt={} SRV update of an instance on {host} delivered inside the announcement of a service of an unbrowsed type, another address afterwards events: @0:announce0 @1:foreign-srv0 @2:address0", !without_txt), svcs: vec![s2], policy: browser::Policy::Never, browse_chan, host_chans: Vec::new(), verifies: Vec::new() };
     monitor_c03(&made, l);
 }
 
